@@ -133,3 +133,17 @@ pub fn mal_vec_wide_len<S: Src>(s: &mut S) {
         assert!(v.len() <= 2, "C06: never more elements than the input could have encoded");
     }
 }
+
+/// BitVec (new storage format): arbitrary declared bit count over a 4-byte storage: error or a BitVec that claims at
+/// most the 32 bits the input encodes; never a panic.
+pub fn mal_bitvec_len<S: Src>(s: &mut S) {
+    let numbits = s.u64();
+    let body: [u8; 4] = s.bytes::<4>();
+    let mut bytes = numbits.to_le_bytes().to_vec();
+    bytes.extend_from_slice(&((1u64 << 63) | 4).to_le_bytes());
+    bytes.extend_from_slice(&body);
+    let mut rd: &[u8] = &bytes[..];
+    if let Ok(v) = Deserializer::bare_deserialize::<bit_vec::BitVec>(&mut rd, 0) {
+        assert!(v.len() <= 32, "C06: a loaded BitVec never claims more bits than the input could have encoded");
+    }
+}
